@@ -230,8 +230,33 @@ def invoke_calls(info, fn):
             if ck.startswith(CONTAINER_CALLEES):
                 continue
             if USER_INVOKE in info.summ.node_effects(fn, n):
+                # a member helper of the queue that reaches user callables through container operations only (`lock; list.splice(..)`
+                # extracted into a step: the ordered list's comparator) is a container operation as well
+                gs = [g for g in fn.callee_fns(n) if g.kind != 'lambda' and g.d.get('lib', True)]
+                if gs and all(_only_container_invokes(info, g) for g in gs):
+                    continue
                 out.append(n)
     return out
+
+
+def _only_container_invokes(info, g, depth=3, _seen=None):
+    _seen = _seen if _seen is not None else set()
+    if g.id in _seen or depth < 0:
+        return False
+    _seen.add(g.id)
+    if queue_of(g) is None:
+        return False
+    for n in g.nodes:
+        if not (g.is_call(n) or g.is_construct(n)):
+            continue
+        ck = g.callee_key(n) or ''
+        if ck.startswith(CONTAINER_CALLEES):
+            continue
+        if USER_INVOKE in info.summ.node_effects(g, n):
+            hs = [h for h in g.callee_fns(n) if h.kind != 'lambda' and h.d.get('lib', True)]
+            if not hs or not all(_only_container_invokes(info, h, depth - 1, _seen) for h in hs):
+                return False
+    return True
 
 
 def slot_calls(fn, names=('set', 'get', 'clear')):
